@@ -324,6 +324,24 @@ func (m *c13Machine) run(s c13Step) string {
 		if err != errC13Callback {
 			return fmt.Sprintf("WalkFromRoot with a callback that fails at once returned %v", err)
 		}
+	case "panicwrite", "panicwalk":
+		// a call that is torn down by a panic of the caller's own writer / callback, which the caller recovers (the pattern of
+		// net/http handlers and worker pools): whatever the library had in flight must not reach later calls
+		m.lastOut = func() (out string) {
+			defer func() { out = fmt.Sprint("recovered: ", recover()) }()
+			if s.Kind == "panicwalk" {
+				n := 0
+				gtree.WalkFromRoot(root, func(*gtree.WalkerNode) error {
+					if n++; n > len(m.trees[s.Tree].nodes)%3 {
+						panic("callback gives up")
+					}
+					return nil
+				})
+			} else {
+				gtree.OutputFromRoot(&panicWriter{after: len(m.trees[s.Tree].nodes) % 3}, root)
+			}
+			return ""
+		}()
 	case "output":
 		var buf bytes.Buffer
 		if err := gtree.OutputFromRoot(&buf, root, m.sharedOpts(opt.Options(context.Background(), ""))...); err != nil {
@@ -481,7 +499,7 @@ func (m *c13Machine) classes() (nontrivial bool, cl []string) {
 	return
 }
 
-var c13Kinds = []string{"output", "output", "json", "walk", "walkiter", "drymkdir", "mkdir", "verify", "itercreate", "iterrange", "iterrange", "failwalk", "verifybad", "verifymissing"}
+var c13Kinds = []string{"output", "output", "json", "walk", "walkiter", "drymkdir", "mkdir", "verify", "itercreate", "iterrange", "iterrange", "failwalk", "verifybad", "verifymissing", "panicwrite", "panicwalk"}
 
 // names of the machine: mostly tiny (collisions, merges), sometimes not a path element (legal for output and walk)
 var c13Names = []string{"a", "b", "ab", "ba", "c", "a", "b", "a/b", "..", "x y", "-"}
@@ -930,4 +948,14 @@ func TestC13Burst(t *testing.T) {
 		}
 	}
 	col.Exhaustive = true
+}
+
+// panicWriter accepts `after` writes and panics in the next one.
+type panicWriter struct{ after, n int }
+
+func (w *panicWriter) Write(p []byte) (int, error) {
+	if w.n++; w.n > w.after {
+		panic("writer gives up")
+	}
+	return len(p), nil
 }
